@@ -92,7 +92,7 @@ def stg_arg(w, scn):
     return os.path.join(w, "stg") if scn.ext else None
 
 
-def main_root(w, scn):
+def main_root(w, scn=None):
     return os.path.join(root_of(w), scn.rel_obj())
 
 
@@ -181,7 +181,7 @@ def steps_of(tr):
             own = by_owner.get(c.part_of)
             if own is None:
                 s = ("write", c.path)
-            elif n in ("copy_file_range", "sendfile") and c.ret == 0 and own["wrote"]:
+            elif n in ("copy_file_range", "sendfile") and own["wrote"] and (c.ret == 0 or c.ret is None or c.injected):
                 s = ("tail", c.path)
             elif own["wrote"]:
                 own["step"]["more"].append(c.point)
@@ -322,3 +322,493 @@ def head_content(root):
             if p.startswith(head + "/"):
                 out[p] = dg
     return head, out
+
+
+# --------------------------------------------------------------------------- "new" modulo the dedup choice
+
+def canon_inv(normjson, head_prefix):
+    """Inventory::dedup_head keeps, of several head paths with one digest, the one its HashSet iterates
+    last - a per-process random choice.  Canonical form: the head paths of a manifest entry are replaced
+    by their number."""
+    inv = json.loads(normjson)
+    man = {}
+    for dg, paths in inv.get("manifest", {}).items():
+        keep = sorted(p for p in paths if not p.startswith(head_prefix))
+        n = sum(1 for p in paths if p.startswith(head_prefix))
+        man[dg] = keep + (["<%d head path(s)>" % n] if n else [])
+    inv["manifest"] = man
+    return json.dumps(inv, sort_keys=True)
+
+
+def canon_view(view):
+    """object view -> comparison form in which the choice of surviving duplicates does not show: head content
+    files as a sorted list of their hashes, inventories through canon_inv"""
+    if view is None:
+        return None
+    head = None
+    e = view.get("inventory.json")
+    if e and e[0] == "inv":
+        try:
+            head = json.loads(e[1]).get("head")
+        except ValueError:
+            head = None
+    out = {}
+    bag = []
+    for rel, e in view.items():
+        if head and rel.startswith(head + "/") and "/" in rel[len(head) + 1:]:
+            if e[0] == "f":
+                bag.append(e[1:3])
+            continue                      # directories below the head content directory depend on the choice
+        if e[0] == "inv" and head:
+            out[rel] = ("inv", canon_inv(e[1], head + "/"))
+        else:
+            out[rel] = e
+    out["<head content>"] = tuple(sorted(bag))
+    return out
+
+
+def is_new(view, ref_view):
+    return canon_view(view) == canon_view(ref_view)
+
+
+def digests_needed(staged_root):
+    """digests of the logical state of the version being committed (the staged inventory's head version)"""
+    inv = json.loads(read_bytes(os.path.join(staged_root, "inventory.json")).decode("utf-8"))
+    return inv["digestAlgorithm"], sorted(inv["versions"][inv["head"]]["state"].keys())
+
+
+def digests_present(alg, roots):
+    have = set()
+    for r in roots:
+        if not os.path.isdir(r):
+            continue
+        for d, _, fs in os.walk(r):
+            for f in fs:
+                data = read_bytes(os.path.join(d, f))
+                if data is not None:
+                    have.add(hashlib.new(alg, data).hexdigest())
+    return have
+
+
+# --------------------------------------------------------------------------- abstraction to Model/FsTree.v
+
+EMPTY_SHA = hashlib.sha256(b"").hexdigest()
+KIND_NO = {"mkdir": 1, "mkdirp": 1, "createnew": 2, "trunc": 3, "chmod": 4, "write": 5, "tail": 6, "rename": 7,
+           "unlink": 8, "unlinkp": 8, "rmdir": 9}
+
+
+class Abs:
+    """token tables shared by all snapshots of one scenario"""
+
+    def __init__(self, scn):
+        self.scn = scn
+        self.inv_k = {}        # normalised inventory -> k
+        self.digest_k = {}     # hex digest of inventory bytes -> k
+        self.blob_n = {EMPTY_SHA: 0}
+        self.dups = {}         # k -> duplicates Inventory::dedup_head drops (observed)
+
+    def rel(self, w, p):
+        """absolute path below w -> list of segments relative to w"""
+        r = os.path.relpath(p, w)
+        return [] if r == "." else r.split("/")
+
+    def path_term(self, segs):
+        # long (hash) names are abbreviated: the model only compares names
+        short = lambda x: x if len(x) <= 24 else x[:10] + "~%d~" % len(x) + x[-6:]
+        return "[" + "; ".join(common.coq_str(short(s)) for s in segs) + "]"
+
+    def inv_key(self, data):
+        n = norm_inventory(data)
+        if n is None:
+            return None
+        if n not in self.inv_k:
+            self.inv_k[n] = len(self.inv_k) + 1
+        k = self.inv_k[n]
+        for alg in ("sha512", "sha256"):
+            self.digest_k[hashlib.new(alg, data).hexdigest()] = k
+        return k
+
+    def scan(self, w):
+        for base in self.bases(w):
+            for d, _, fs in os.walk(base):
+                if "inventory.json" in fs:
+                    self.inv_key(read_bytes(os.path.join(d, "inventory.json")) or b"")
+
+    def bases(self, w):
+        return [root_of(w)] + ([os.path.join(w, "stg")] if self.scn.ext else [])
+
+    def inv_token(self, data):
+        k = self.inv_key(data)
+        if k is None:
+            return "CPartial"
+        inv = json.loads(data.decode("utf-8"))
+        vs = sorted(inv["versions"].keys(), key=lambda v: int(v[1:]))
+        spec = "0=ocfl_object_" + inv["type"].split("/")[3]
+        head = inv["head"] + "/"
+        man = sorted(p for ps in inv["manifest"].values() for p in ps if p.startswith(head))
+        dups = sorted(self.dups.get(k, []))
+        return "(CInv %d %s %s %s %s)" % (k, self.path_term(vs), common.coq_str(spec),
+                                           "[" + "; ".join(self.path_term(p.split("/")) for p in man) + "]",
+                                           "[" + "; ".join(self.path_term(p.split("/")) for p in dups) + "]")
+
+    def file_token(self, full):
+        bn = os.path.basename(full)
+        data = read_bytes(full)
+        if data is None:
+            return "CPartial"
+        if bn == "inventory.json":
+            return self.inv_token(data)
+        if bn.startswith("inventory.json."):
+            parts = data.decode("utf-8", "replace").split()
+            if len(parts) == 2 and parts[1] == "inventory.json" and data.endswith(b"\n"):
+                return "(CSide %d)" % self.digest_k.get(parts[0].lower(), 999999)
+            return "CPartial"
+        if bn.startswith("0=ocfl_object_"):
+            return "(CDecl %s)" % common.coq_str(bn) if data == (bn[2:] + "\n").encode() else "CPartial"
+        h = hashlib.sha256(data).hexdigest()
+        if h not in self.blob_n:
+            self.blob_n[h] = len(self.blob_n)
+        return "(CBlob %d)" % self.blob_n[h]
+
+    def tree_term(self, w):
+        self.scan(w)
+        ents = []
+        for base in self.bases(w):
+            segs0 = self.rel(w, base)
+            ents.append((segs0, "Dir"))
+            for d, dirs, fs in os.walk(base):
+                dirs.sort()
+                for name in sorted(dirs):
+                    ents.append((self.rel(w, os.path.join(d, name)), "Dir"))
+                for name in sorted(fs):
+                    full = os.path.join(d, name)
+                    ents.append((self.rel(w, full), "File " + self.file_token(full)))
+        return "[" + "; ".join("(%s, %s)" % (self.path_term(p), n) for p, n in ents) + "]"
+
+    def cfg_term(self, w, newk):
+        scn = self.scn
+        so = self.rel(w, staged_root(w, scn))
+        mo = self.rel(w, main_root(w, scn))
+        locks = self.rel(w, st.locks_dir(root_of(w), stg_arg(w, scn)))
+        lock = os.path.basename(st.lock_path(root_of(w), stg_arg(w, scn), scn.oid))
+        inv = json.loads(read_bytes(os.path.join(main_root(w, scn) if not os.path.isdir(staged_root(w, scn)) else staged_root(w, scn),
+                                                 "inventory.json")).decode("utf-8"))
+        alg = inv["digestAlgorithm"]
+        vs = sorted(inv["versions"].keys(), key=lambda v: int(v[1:]))
+        last = vs[-1]
+        width = len(last) - 1 if last.startswith("v0") else 0
+        vnext = "v" + str(int(last[1:]) + 1).rjust(width, "0")
+        return "(mkCfg %s %s %s %s %s %s %s %d 9001 9002 %s %s)" % (
+            self.path_term(locks), self.path_term([lock])[1:-1], self.path_term(so), self.path_term(mo),
+            common.coq_str("inventory.json"), common.coq_str("inventory.json." + alg),
+            common.coq_str(inv.get("contentDirectory", "content")), newk, common.coq_str(vnext),
+            common.coq_str("0=ocfl_object_1.1"))
+
+    def ostep_term(self, w, s):
+        kind = KIND_NO[s[0]]
+        p = self.path_term(self.rel(w, s[1]))
+        q = self.path_term(self.rel(w, s[2])) if len(s) > 2 else "[]"
+        return "(OS %d %s %s)" % (kind, p, q)
+
+    def fsop_term(self, w, o):
+        names = {"mkdir": "Mkdir", "createnew": "CreateNew", "create": "Create", "unlink": "Unlink", "rmdir": "Rmdir"}
+        if o[0] == "rename":
+            return "(Rename %s %s)" % (self.path_term(self.rel(w, o[1])), self.path_term(self.rel(w, o[2])))
+        if o[0] in names:
+            return "(%s %s)" % (names[o[0]], self.path_term(self.rel(w, o[1])))
+        return None
+
+
+# --------------------------------------------------------------------------- recording run of a scenario
+
+class Rec:
+    """the fault-free recording run of a scenario: injection points, reference results, Coq terms"""
+
+
+def record(tpl, env, set_=None):
+    scn = tpl.scn
+    w = tpl.copy("rec")
+    r = Rec()
+    r.tpl, r.scn, r.w, r.set = tpl, scn, w, set_
+    r.pre_raw = raw_view(main_root(tpl.dir, scn))
+    r.pre_view = obj_view(main_root(tpl.dir, scn))
+    r.alg, r.need = digests_needed(staged_root(tpl.dir, scn)) if os.path.isdir(staged_root(tpl.dir, scn)) else (None, None)
+    staged_inv = read_bytes(os.path.join(staged_root(tpl.dir, scn), "inventory.json"))
+    tr = st.trace(cmd(w, scn, scn.final(w)), env=env, cwd=w, set=set_)
+    if tr.rc != 0 or tr.parse_errors or tr.timed_out:
+        raise common.BuildError("recording run of %s failed: rc=%s %s %r" % (scn.name, tr.rc, tr.stderr[-300:], tr.parse_errors[:2]))
+    r.trace = tr
+    r.steps = steps_of(tr)
+    r.new_view = obj_view(main_root(w, scn))
+    r.errs, r.vrc = validate_both(w, scn, env)
+    if r.alg is None:
+        r.alg, r.need = "sha512", []
+        inv = json.loads(read_bytes(os.path.join(main_root(w, scn), "inventory.json")).decode("utf-8"))
+        r.alg, r.need = inv["digestAlgorithm"], sorted(inv["versions"][inv["head"]]["state"].keys())
+    # index of the step that installs into the main repository
+    mo = main_root(w, scn)
+    r.install = None
+    for i, s in enumerate(r.steps):
+        if s["step"][0] == "rename" and hist.under(s["step"][2], mo):
+            r.install = i
+            break
+    # ---- Coq terms
+    a = Abs(scn)
+    a.scan(tpl.dir)
+    a.scan(w)
+    final_inv = read_bytes(os.path.join(mo, "inventory.json"))
+    newk = a.inv_key(final_inv)
+    if staged_inv is not None:
+        k0 = a.inv_key(staged_inv)
+        i0 = json.loads(staged_inv.decode("utf-8"))
+        i1 = json.loads(final_inv.decode("utf-8"))
+        h = i0["head"] + "/"
+        m0 = set(p for ps in i0["manifest"].values() for p in ps if p.startswith(h))
+        m1 = set(p for ps in i1["manifest"].values() for p in ps if p.startswith(h))
+        if k0 != newk:
+            a.dups[k0] = sorted(m0 - m1)
+    r.abs = a
+    r.newk = newk
+    r.t_pre = a.tree_term(tpl.dir)
+    r.t_post = a.tree_term(w)
+    r.cfg = a.cfg_term(tpl.dir, newk)
+    r.obs = "[" + "; ".join(a.ostep_term(w, s["step"]) for s in r.steps) + "]"
+    ops = [a.fsop_term(w, o) for o in tr.ops]
+    r.ops = "[" + "; ".join(o for o in ops if o) + "]"
+    r.prog = "PUpgrade" if scn.is_upgrade else "PCommit"
+    return r
+
+
+def report_term(r, injs):
+    """one Coq term evaluating Corr.CheckCommit.scenario_report; injs = list of ('F'|'K'|'KA'|'S', step index)"""
+    names = {"F": "OFault", "K": "OKill", "KA": "OKillAfter", "S": "OStop"}
+    js = "[" + "; ".join("%s %d%%nat" % (names[k], i) for k, i in injs) + "]"
+    return "let T := %s in let P := %s in let C := %s in let O := %s in scenario_report %s C T P O %s %s" % (
+        r.t_pre, r.t_post, r.cfg, r.obs, r.prog, r.ops, js)
+
+
+def known_term(r, idxs):
+    return "let T := %s in let C := %s in let O := %s in known_obs %s C T O [%s]" % (
+        r.t_pre, r.cfg, r.obs, r.prog, "; ".join("%d%%nat" % i for i in idxs))
+
+
+# --------------------------------------------------------------------------- injected runs and the model-free oracles
+
+ERRNOS = ["EIO", "ENOSPC", "EACCES"]
+
+
+def classify(w, scn, rec, env):
+    """direct classification of the main object after a run: ('old'|'new'|'invalid'|'other', details)
+    old = byte-identical to before; new = the fault-free result (inventories as parsed JSON modulo `created`
+    and the dedup choice, sidecars consistent, content by hash) accepted by ocflv and by rocfl validate;
+    invalid = neither, and BOTH validators reject it; other = neither, and some validator accepts it"""
+    m = main_root(w, scn)
+    raw = raw_view(m)
+    errs, vrc = validate_both(w, scn, env)
+    d = {"ocflv": errs, "rocfl_validate_rc": vrc}
+    if raw == rec.pre_raw:
+        return "old", d
+    view = obj_view(m)
+    if is_new(view, rec.new_view) and errs == [] and vrc == 0:
+        return "new", d
+    d["diff_to_old"] = [(a, str(b_)[:80], str(c_)[:80]) for a, b_, c_ in view_diff(raw, rec.pre_raw, 5)]
+    d["diff_to_new"] = [(a, str(b_)[:80], str(c_)[:80]) for a, b_, c_ in view_diff(canon_view(view), canon_view(rec.new_view), 5)]
+    if errs and vrc == 2:
+        return "invalid", d
+    return "other", d
+
+
+def old_versions_intact(w, scn, rec):
+    """C05 (i): every version directory committed before is byte-identical"""
+    if rec.pre_raw is None:
+        return []
+    now = raw_view(main_root(w, scn)) or {}
+    bad = []
+    for v, ents in version_dirs(rec.pre_raw).items():
+        for rel, e in ents.items():
+            if now.get(rel) != e:
+                bad.append((rel, e, now.get(rel)))
+        for rel in now:
+            if (rel == v or rel.startswith(v + "/")) and rel not in rec.pre_raw:
+                bad.append((rel, None, now[rel]))
+    return bad[:5]
+
+
+def content_somewhere(w, scn, rec):
+    """C05 (ii): every content file of the version being committed exists in full in staging or in the object"""
+    have = digests_present(rec.alg, [main_root(w, scn), staged_root(w, scn)])
+    return [d[:16] for d in rec.need if d not in have]
+
+
+def run_cli(w, scn, env, args):
+    rc, out, err = st.run_plain(cmd(w, scn, args), env=env, cwd=w, timeout=90)
+    return rc, (out + err).strip()[-300:]
+
+
+def match_step(rec, tr, w):
+    """the call the injection hit in THIS run (rocfl's HashSet order makes the calls of the dedup clean-up differ
+    from run to run, so a point (name, n) of the recording may be another call here) mapped back to the index of
+    the same call in the recording; and whether the run had installed into the main repository before it.
+    returns (index or None, step tuple with ~ for the work directory, installed_before)"""
+    steps = steps_of(tr)
+    hit = None
+    for i, s in enumerate(steps):
+        c = s["call"]
+        if c.injected or (tr.killed and c.ret is None and i == len(steps) - 1):
+            hit = i
+            break
+        if any(tuple(p) == tuple(x.point) for x in tr.injected_calls() for p in s["more"]):
+            hit = i
+            break
+    if hit is None:
+        return None, None, None
+    mo = main_root(w, scn=rec.scn)
+    installed = any(s["step"][0] == "rename" and s["ok"] and hist.under(s["step"][2], mo) for s in steps[:hit])
+    norm = lambda stp, base: tuple(x.replace(base, "~") if isinstance(x, str) else x for x in stp)
+    kinds = {"mkdirp": "mkdir", "unlinkp": "unlink"}
+    nk = lambda t_: (kinds.get(t_[0], t_[0]),) + tuple(t_[1:])
+    mine = [nk(norm(s["step"], w)) for s in steps]
+    theirs = [nk(norm(s["step"], rec.w)) for s in rec.steps]
+    occ = mine[:hit + 1].count(mine[hit])
+    seen = 0
+    for j, t_ in enumerate(theirs):
+        if t_ == mine[hit]:
+            seen += 1
+            if seen == occ:
+                return j, mine[hit], installed
+    return None, mine[hit], installed
+
+
+def run_case(rec, env, kind, idx, what=None, point=None, set_=None):
+    """one injected run in a fresh copy of the template.
+    kind 'F' error injection (what = errno), 'K' SIGKILL, 'S' SIGINT; idx = index into rec.steps;
+    point overrides the injection point (a later write call of the same file)"""
+    tpl, scn = rec.tpl, rec.scn
+    w = tpl.copy("i" + kind)
+    pt = point or rec.steps[idx]["point"]
+    inj = {"when": list(pt)}
+    if set_:
+        inj["set"] = set_
+    if kind == "F":
+        inj["error"] = what
+    else:
+        inj["signal"] = "SIGKILL" if kind == "K" else "SIGINT"
+    tr = st.trace(cmd(w, scn, scn.final(w)), env=env, cwd=w, inject=inj, timeout=90)
+    midx, hit, installed = match_step(rec, tr, w)
+    o = {"scn": scn.name, "kind": kind, "idx": idx, "what": what or inj.get("signal"), "point": list(pt), "set": set_,
+         "rec_step": [x.replace(rec.w, "~") for x in rec.steps[idx]["step"]], "hit": hit, "midx": midx,
+         "rc": tr.rc, "killed": tr.killed, "stderr": tr.stderr.strip()[-240:], "reached": hit is not None,
+         "timed_out": tr.timed_out, "parse_errors": tr.parse_errors[:2], "msgs": [], "follow": [],
+         "installed_before": installed, "mid_file": bool(point)}
+    cls, det = classify(w, scn, rec, env)
+    o["cls"], o["detail"] = cls, det
+    o["staged_left"] = os.path.isdir(staged_root(w, scn))
+    o["lock_left"] = os.path.exists(st.lock_path(root_of(w), stg_arg(w, scn), scn.oid))
+    msgs = o["msgs"]
+    if kind == "K":
+        bad = old_versions_intact(w, scn, rec)
+        if bad:
+            msgs.append("a previously committed version directory changed: %r" % (bad,))
+        miss = content_somewhere(w, scn, rec)
+        if miss:
+            msgs.append("content of the version being committed is neither in staging nor in the object: digests %r" % (miss,))
+        if cls == "other":
+            msgs.append("after the kill the object is neither old nor new, yet ocflv (%r) and rocfl validate (exit %s) do not both reject it" % (det["ocflv"], det["rocfl_validate_rc"]))
+    else:
+        if cls not in ("old", "new"):
+            msgs.append("main object is neither byte-identical to before nor the complete valid new version (%s: ocflv %r, rocfl validate exit %s)" % (cls, det["ocflv"], det["rocfl_validate_rc"]))
+        if kind == "F" and o["reached"]:
+            if tr.rc == 0 and cls != "new":
+                msgs.append("success reported but the new version is not installed (%s)" % cls)
+            if tr.rc != 0 and not installed and cls != "old":
+                msgs.append("error raised before the install step but the object changed (%s)" % cls)
+        # ---- afterwards: retry / reset
+        if cls == "old" and (tr.rc != 0 or kind == "S"):
+            w2 = tpl.copy("rs", src=w)
+            rc2, out2 = run_cli(w2, scn, env, ["reset", scn.oid])
+            o["follow"].append(("reset", rc2, out2))
+            o["reset_rc"] = rc2
+            o["reset_staged_left"] = os.path.isdir(staged_root(w2, scn))
+            o["reset_ok"] = rc2 == 0 and not o["reset_staged_left"] and raw_view(main_root(w2, scn)) == rec.pre_raw
+            shutil.rmtree(w2, ignore_errors=True)
+            ok = False
+            for args in ([scn.final(w)] + ([scn.final(w, retry=True)] if scn.is_upgrade else [])):
+                rc3, out3 = run_cli(w, scn, env, args)
+                o["follow"].append((args[0], rc3, out3))
+                if rc3 == 0:
+                    ok = True
+                    break
+            c3, d3 = classify(w, scn, rec, env)
+            o["retry_rc0"] = ok
+            o["retry_cls"] = c3
+            o["retry_detail"] = d3
+        elif cls == "new" and tr.rc != 0:
+            rc2, out2 = run_cli(w, scn, env, ["reset", scn.oid])
+            c3, d3 = classify(w, scn, rec, env)
+            o["follow"].append(("reset", rc2, out2))
+            o["reset_rc"] = rc2
+            o["reset_staged_left"] = os.path.isdir(staged_root(w, scn))
+            o["reset_ok"] = rc2 == 0 and c3 == "new" and not o["reset_staged_left"]
+    shutil.rmtree(w, ignore_errors=True)
+    return o
+
+
+# --------------------------------------------------------------------------- scenario sets, Coq evaluation
+
+QUICK = [("new", "0004", False), ("version", "0002", True), ("dedup", "0004", False), ("dedup", "0002", True),
+         ("delete", "0002", False), ("upgrade", "0004", True), ("upgrade_fresh", "0002", False),
+         ("upgrade_new", "0004", True), ("nested", "0002", True), ("version", "0004", False)]
+WRITE_GRANULARITY = [("version", "0004", False), ("upgrade", "0004", True), ("upgrade_new", "0004", True), ("new", "0004", False)]
+IMPORTS = ["Base.Bytes", "Model.FsOps", "Model.FsTree", "Model.Commit", "Model.KnownC04", "Corr.CheckCommit"]
+CLS_NO = {"old": 0, "new": 1, "invalid": 2, "other": 3}
+
+
+def scenario_list(ctx):
+    if ctx.quick():
+        return [Scn(*x) for x in QUICK]
+    return [Scn(k, l, e) for k in KINDS for l in ("0004", "0002") for e in (False, True)]
+
+
+def parse_coq(val):
+    """printed Coq value (booleans, numbers, options, pairs, lists) -> Python value"""
+    import ast
+    import re
+    v = val.replace("%nat", "").replace("%N", "").replace(";", ",")
+    v = re.sub(r"\btrue\b", "True", v)
+    v = re.sub(r"\bfalse\b", "False", v)
+    v = re.sub(r"\bSome\s+", "", v)
+    return ast.literal_eval(v)
+
+
+def follow_term(r, idxs):
+    return "let T := %s in let C := %s in let O := %s in follow_obs %s C T O [%s]" % (
+        r.t_pre, r.cfg, r.obs, r.prog, "; ".join("%d%%nat" % i for i in idxs))
+
+
+def prepare(ctx, env, scns, set_=None, workers=8):
+    """templates and recording runs (thread pool)"""
+    import concurrent.futures
+
+    def one(scn):
+        tpl = build_template(ctx, scn, env)
+        return record(tpl, env, set_=set_)
+    with concurrent.futures.ThreadPoolExecutor(max_workers=workers) as ex:
+        return list(ex.map(one, scns))
+
+
+def sample_write_points(ctx, rec, per_file=2):
+    """[(step index, point or None)] of the data writes of the recording (set mutating+write): the first write of every
+    file and a few later ones"""
+    out = []
+    for i, s in enumerate(rec.steps):
+        if s["step"][0] != "write":
+            continue
+        out.append((i, None))
+        more = s["more"]
+        if more:
+            picks = {len(more) // 2, len(more) - 1}
+            while len(picks) < min(per_file, len(more)):
+                picks.add(ctx.rng.randrange(len(more)))
+            for j in sorted(picks)[:per_file]:
+                out.append((i, more[j]))
+    return out
